@@ -2,7 +2,7 @@
    Statements only; proofs in proofs/AshCodec_proofs.v and proofs/Crc_proofs.v.
    [encode]/[parse]/[stuff]/[unstuff]/[write_frame] transliterate bellows/ash.py and are tied to
    it by the C03 correspondence; [crc16] (bitwise) and [lfsr] are written from the specification. *)
-From Coq Require Import NArith List Bool String.
+From Coq Require Import String NArith List Bool.
 Import ListNotations.
 Require Import BV.gen.GenAsh BV.model.AshCodec BV.proofs.AshCodec_proofs BV.proofs.Crc_proofs.
 Open Scope N_scope.
